@@ -66,11 +66,15 @@ func (mbp *multipartBodyProcessor) ProcessRequest(reader io.Reader, v plugintype
 					v.MultipartStrictError().(*collections.Single).Set("1")
 					return err
 				}
-				defer temp.Close()
 				// Register the file before filling it: if the copy fails below, Transaction.Close
 				// still knows about it and removes it.
 				filesTmpNamesCol.Add("", temp.Name())
 				sz, err := io.Copy(temp, p)
+				// A failing close means the upload may not have reached the disk: report it like a
+				// failed write instead of dropping it.
+				if closeErr := temp.Close(); err == nil {
+					err = closeErr
+				}
 				if err != nil {
 					if !errors.Is(err, io.ErrUnexpectedEOF) {
 						v.MultipartStrictError().(*collections.Single).Set("1")
